@@ -42,6 +42,8 @@ import (
 	"github.com/noble-assets/orbiter/v2/entrypoint"
 	"github.com/noble-assets/orbiter/v2/keeper"
 	dispatchercomp "github.com/noble-assets/orbiter/v2/keeper/component/dispatcher"
+	forwardercomp "github.com/noble-assets/orbiter/v2/keeper/component/forwarder"
+	forwardertypes "github.com/noble-assets/orbiter/v2/types/component/forwarder"
 	orbtypes "github.com/noble-assets/orbiter/v2/types"
 	forwardingtypes "github.com/noble-assets/orbiter/v2/types/controller/forwarding"
 	"github.com/noble-assets/orbiter/v2/types/core"
@@ -367,4 +369,52 @@ func (h *hwire) control(f []string) string {
 		return "ok"
 	}
 	return "bad-op"
+}
+
+// msgh <rpc> <signerHex> args…: the forwarder message server of the harness-wired keeper (same store),
+// so that the request ReplaceDepositForBurn hands to CCTP is recorded (C05). Message-level rollback as in runMsg.
+func (h *hwire) msgLine(d *driver, s *appState, f []string) (out string) {
+	defer func() {
+		if r := recover(); r != nil {
+			out = "res=panic hreq=-"
+		}
+	}()
+	if len(f) < 2 {
+		return "bad-op"
+	}
+	m, ok := s.buildMsg(f[0], mustUnhx(f[1]), f[2:])
+	if !ok {
+		return "bad-op"
+	}
+	h.resetOp()
+	h.faults = map[string]map[int]bool{}
+	ms := forwardercomp.NewMsgServer(h.k.Forwarder(), h.k)
+	cacheCtx, write := s.env.Ctx.CacheContext()
+	cacheCtx = cacheCtx.WithEventManager(sdk.NewEventManager())
+	var err error
+	switch mm := m.(type) {
+	case *forwardertypes.MsgReplaceDepositForBurn:
+		_, err = ms.ReplaceDepositForBurn(cacheCtx, mm)
+	case *forwardertypes.MsgPauseProtocol:
+		_, err = ms.PauseProtocol(cacheCtx, mm)
+	case *forwardertypes.MsgUnpauseProtocol:
+		_, err = ms.UnpauseProtocol(cacheCtx, mm)
+	case *forwardertypes.MsgPauseCrossChains:
+		_, err = ms.PauseCrossChains(cacheCtx, mm)
+	case *forwardertypes.MsgUnpauseCrossChains:
+		_, err = ms.UnpauseCrossChains(cacheCtx, mm)
+	default:
+		return "bad-op"
+	}
+	res := "ok"
+	if err != nil {
+		res = "err"
+	} else {
+		write()
+	}
+	req := "-"
+	if len(h.reqs) > 0 {
+		req = strings.Join(h.reqs, ";")
+	}
+	return fmt.Sprintf("res=%s hreq=%s st=%s", res, req, s.stateStr(s.env.Ctx))
 }
